@@ -144,8 +144,14 @@ static int do_support(const struct c19_op* o, const char* f)
     if (IS("expectedCallsLeft")) { c19_val("b", m->expectedCallsLeft() != 0); return 1; }
     if (IS("clear")) { m->clear(); return 1; }
     if (IS("crashOnFailure")) { m->crashOnFailure((unsigned)Z0); return 1; }
-    if (IS("installComparator")) { m->installComparator(NAME, c19_obj_equal, c19_obj_to_string); return 1; }
-    if (IS("installCopier")) { m->installCopier(NAME, c19_obj_copy); return 1; }
+    if (IS("installComparator")) {
+        if (o->nz != 2 || Z0 >= C19_NEQ || o->z[1] >= C19_NSTR) return 0;
+        m->installComparator(NAME, c19_eq_pool[Z0], c19_str_pool[o->z[1]]); return 1;
+    }
+    if (IS("installCopier")) {
+        if (o->nz != 1 || Z0 >= C19_NCOPY) return 0;
+        m->installCopier(NAME, c19_copy_pool[Z0]); return 1;
+    }
     if (IS("removeAllComparatorsAndCopiers")) { m->removeAllComparatorsAndCopiers(); return 1; }
     return 0;
 }
